@@ -257,15 +257,27 @@ class C12(Prop):
         self._mruns = list(zip(mt, mruns))
         mgot = C.run_driver("asm", [r[0] for r in mruns])
         dis += [{"target": c[0], "text": [it["line"] for it in c[1]], "implementation": r[1][:400], "model": g[:400]} for c, r, g in zip(mt, mruns, mgot) if r[1] != g]
+        # create_ir(): the IR's operand-size table against Asm/CreateIR.v, on multi-section programs
+        from harness import asmir
+        rnd_ir = C.rng("c12-ir-corr")
+        ir_lines, ir_impl, ir_text = [], [], []
+        for _ in range(300 if tier == "quick" else 2000):
+            text, _v = asmir.check(rnd_ir)
+            if asmir.LAST["line"] is not None and asmir.LAST["impl"] is not None:
+                ir_lines.append(asmir.LAST["line"])
+                ir_impl.append(asmir.LAST["impl"])
+                ir_text.append(text)
+        ir_got = C.run_driver("asm", ir_lines)
+        dis += [{"create_ir": t, "implementation": e, "model": g} for t, e, g in zip(ir_text, ir_impl, ir_got) if e != g]
         per_target = {}
         for c, r in zip(mt, mruns):
             d = per_target.setdefault(c[0], {"texts": 0, "errors": 0})
             d["texts"] += 1
             d["errors"] += 1 if r[1].startswith("err") else 0
-        return dict(evaluations=len(runs) + len(mruns), distinct_nontrivial=len({r[0] for r in runs} | {r[0] for r in mruns}),
+        return dict(evaluations=len(runs) + len(mruns) + len(ir_lines), distinct_nontrivial=len({r[0] for r in runs} | {r[0] for r in mruns} | set(ir_lines)),
                     samples=[{"chunks": c[0], "result": r[1][:200]} for c, r in list(zip(cases, runs))[:3]] +
                             [{"target": c[0], "text": [it["line"] for it in c[1]], "result": r[1][:200]} for c, r in list(zip(mt, mruns))[:6:2]],
-                    disagreements=dis[:20], dist={"texts": len(cases), "errors": errs, "other_targets": per_target})
+                    disagreements=dis[:20], dist={"texts": len(cases), "errors": errs, "other_targets": per_target, "create_ir_programs": len(ir_lines)})
 
     def oracle(self, tier, ctx, boosted):
         pairs = getattr(self, "_runs", None)
